@@ -128,7 +128,7 @@ HOWS_ENTER512 = ["steps_inow0", "steps_short0"]
 
 def segments(hows, min_size=1, max_size=4, nmax=12, ops=None):
     seg = {"how": st.sampled_from(hows), "n": st.one_of(st.integers(1, nmax), st.integers(2, 5)),
-           "frac": st.sampled_from([0.5, 0.25, 0.9])}
+           "frac": st.sampled_from([0.5, 0.25, 0.9]), "flags": st.sampled_from(["r_crit", "coords", "both"])}
     if ops is not None:
         seg["ops"] = st.lists(ops, min_size=0, max_size=3)
     return st.lists(st.fixed_dictionaries(seg), min_size=min_size, max_size=max_size)
@@ -137,7 +137,7 @@ def segments(hows, min_size=1, max_size=4, nmax=12, ops=None):
 deferred_case = st.fixed_dictionaries({
     "system": system_tp(), "cfg": st.one_of(whfast_opts, saba_opts, mercurius_opts),
     "dt_frac": dt_frac, "sign": dt_sign,
-    "segments": segments(HOWS + ["integrate_exact"] + HOWS_ENTER),
+    "segments": segments(HOWS + ["integrate_exact", "steps_flag", "steps_flag"] + HOWS_ENTER),
 })
 deferred512_case = st.fixed_dictionaries({
     "system": system512(), "cfg": wh512_opts, "dt_frac": dt_frac, "sign": st.just(1),
@@ -296,6 +296,31 @@ def ops_per_step(cfg):
     return 5
 
 
+RECALC_FLAGS = {
+    # documented "recalculate ... this timestep" flags; the integrator synchronises first (with a warning) when
+    # one is set on an unsynchronised state.  SABA shares ri_whfast's flag but does not synchronise: setting it
+    # without synchronising first is outside its documented use and is not generated.
+    "whfast": {"coords": ["ri_whfast.recalculate_coordinates_this_timestep"]},
+    "mercurius": {"coords": ["ri_mercurius.recalculate_coordinates_this_timestep"],
+                  "r_crit": ["ri_mercurius.recalculate_r_crit_this_timestep"]},
+}
+
+
+def set_recalc_flags(sim, fam, which):
+    """set the requested flag(s) without changing anything else: nothing in the state is different, so the
+    physics must not change.  Both twins get the same flags at the same step (MERCURIUS recomputes dcrit from the
+    state at that time, which both twins then do)."""
+    from .. import rb
+    table = RECALC_FLAGS.get(fam, {})
+    names = list(table) if which == "both" else [which if which in table else (list(table) or [None])[0]]
+    done = []
+    for nme in names:
+        for path in table.get(nme, []):
+            rb.setpath(sim, path, 1)
+            done.append(path)
+    return done
+
+
 def scales(pf):
     sx = max(math.sqrt(p[0] ** 2 + p[1] ** 2 + p[2] ** 2) for p in pf)
     sv = max(math.sqrt(p[3] ** 2 + p[4] ** 2 + p[5] ** 2) for p in pf)
@@ -340,10 +365,23 @@ def run_deferred(case, ctx):
         howA = seg["how"]
         if fam == "whfast512" and howA == "steps":
             howA = "step"
-        advance(A, howA, n, seg["frac"], each_step=each if (howA == "step" or howA.startswith("steps_")) else None)
-        if fam == "whfast512":
-            A.synchronize()
-        advance(B, seg["how"], n, seg["frac"])
+        if howA == "steps_flag":
+            # steps, then a recalculate flag set on the (for B: unsynchronised) state, then more steps
+            n1 = max(1, n // 2)
+            n2 = max(1, n - n1)
+            n = n1 + n2
+            A.steps(n1)
+            B.steps(n1)
+            for path in set_recalc_flags(A, fam, seg.get("flags", "coords")):
+                ctx.cls("flag:" + path)
+            set_recalc_flags(B, fam, seg.get("flags", "coords"))
+            A.steps(n2)
+            B.steps(n2)
+        else:
+            advance(A, howA, n, seg["frac"], each_step=each if (howA == "step" or howA.startswith("steps_")) else None)
+            if fam == "whfast512":
+                A.synchronize()
+            advance(B, seg["how"], n, seg["frac"])
         B.synchronize()
         done += n
         if n >= 2:
